@@ -41,7 +41,7 @@ def main():
         else:
             opt[a[i]] = a[i + 1]; i += 2
     wt, out = f"{base}/{pid}/wt", f"{base}/{pid}/out/{k}"
-    env = dict(os.environ, CARGO_TARGET_DIR=f"{base}/{pid}/target", TMPDIR=f"{base}/{pid}/tmp", CARGO_NET_OFFLINE="true")
+    env = dict(os.environ, CARGO_TARGET_DIR=f"{base}/{pid}/target", TMPDIR=f"{base}/{pid}/tmp", CARGO_NET_OFFLINE="true", CARGO_INCREMENTAL="0")
     os.makedirs(f"{base}/{pid}/tmp", exist_ok=True)
     log = open(f"{out}/verify.log", "w")
     res = {"property": pid, "k": int(k), "when": time.strftime("%Y-%m-%dT%H:%M:%S"), "confirmed": False}
@@ -68,7 +68,7 @@ def main():
         with open(os.path.join(wt, opt["--mod-file"]), "a") as fh:
             fh.write("\n" + opt["--mod-line"].replace("\\n", "\n") + "\n")
         dcrate = opt["--demo-crate"] or opt["--tests"].split("-p")[1].split()[0]
-        r = sh(f"cargo nextest run --offline --build-jobs 6 --test-threads 4 --no-fail-fast -p {dcrate}{feat} {opt['--filter']} 2>&1 | tail -60", wt, env, log)
+        r = sh(f"cargo nextest run --offline --build-jobs 6 --test-threads 4 --no-fail-fast {opt['--tests']}{feat} {opt['--filter']} 2>&1 | tail -60", wt, env, log)
         p, f = counts(r.stdout)
         res["demo_with_patch"] = {"passed": p, "failed": f}
         res["demo_fails_with_patch"] = f is not None and f > 0
@@ -76,7 +76,7 @@ def main():
         if r.returncode != 0:
             res["revert_failed"] = True
             return res
-        r = sh(f"cargo nextest run --offline --build-jobs 6 --test-threads 4 --no-fail-fast -p {dcrate}{feat} {opt['--filter']} 2>&1 | tail -60", wt, env, log)
+        r = sh(f"cargo nextest run --offline --build-jobs 6 --test-threads 4 --no-fail-fast {opt['--tests']}{feat} {opt['--filter']} 2>&1 | tail -60", wt, env, log)
         p, f = counts(r.stdout)
         res["demo_without_patch"] = {"passed": p, "failed": f}
         res["demo_passes_without_patch"] = p is not None and p > 0 and f == 0
